@@ -161,7 +161,7 @@ def _to_string(
                 out += indeterminant
             if exponent > 1:
                 out += options["display_exponent"] + str(exponent)
-        if output and float(coefficients[idx]) >= 0:
+        if output and not out.startswith("-"):
             out = "+" + out
         output.append(out)
 
